@@ -50,7 +50,7 @@ type sfieldJ struct {
 }
 
 type Input struct {
-	Kind string `json:"kind"` // line | mode | list | recipe
+	Kind string `json:"kind"` // line | mode | list | recipe | gen
 	// line
 	Line   B         `json:"line_hex,omitempty"`
 	HasS   bool      `json:"structured,omitempty"`
@@ -63,6 +63,8 @@ type Input struct {
 	List *ListInput `json:"list,omitempty"`
 	// recipe
 	Recipe *RecipeInput `json:"recipe,omitempty"`
+	// generate
+	Gen *GenInput `json:"gen,omitempty"`
 }
 
 func packToks(ts []Tok) string {
@@ -238,6 +240,8 @@ func Run(in Input) *common.Case {
 		return runList(in)
 	case "recipe":
 		return runRecipe(in)
+	case "gen":
+		return runGen(in)
 	}
 	panic("c17: unknown input kind " + in.Kind)
 }
@@ -280,6 +284,8 @@ func Generate(r *rng.R, tier string, n int, emit func(*common.Case)) {
 			in = genList(cr)
 		case k < 17:
 			in = genProc(cr)
+		case k < 18:
+			in = genGen(cr)
 		default:
 			in = genRecipe(cr)
 		}
